@@ -682,7 +682,8 @@ func (c *Ctx) reachableFrom(roots []*ssa.Function, useCG bool, skipGo bool) map[
 				return
 			}
 			if mc, ok := i.(*ssa.MakeClosure); ok {
-				if af, ok := mc.Fn.(*ssa.Function); ok {
+				if af, ok := mc.Fn.(*ssa.Function); ok && !(af.Synthetic != "" && !useCG) {
+					// (without a call graph, a bound-method value is a reference, not a call: not followed)
 					// a closure created here may be called by anyone it is handed to: follow it,
 					// unless it is only the operand of a `go` statement and skipGo is set.
 					onlyGo := skipGo
